@@ -156,7 +156,7 @@ def execute(job):
         plan["scratch"] = scratch
     try:
         t0 = time.perf_counter()
-        result = run_plan(plan, check.resolvers)
+        result = check.run_world(plan, run_plan)
         verdict = check.judge(plan, result)
         wall = time.perf_counter() - t0
     finally:
